@@ -569,6 +569,11 @@ def gen_box(rng):
             if pbc[d]:
                 f[:, d] %= 1.0
         pos = f @ cell
+    if len(numbers) >= 2 and rng.random() < 0.08:
+        # two atoms on the very same point (a dummy / charge site on a nucleus, superposed structures): distance exactly 0 is
+        # within every positive cutoff — they are bonded
+        i, j = rng.sample(range(len(numbers)), 2)
+        pos[j] = pos[i]
     return {"cell": cell.tolist(), "pbc": list(pbc), "numbers": numbers, "positions": pos.tolist()}
 
 
